@@ -52,7 +52,7 @@ func (e *fnEnc) strEqLit(a, lit Term, n int) Term {
 
 func (e *fnEnc) strCompare(a, b Term) Term {
 	if a.Sort == SAStr {
-		return app(SInt, e.declareFun("acmp", []Sort{SAStr, SAStr}, SInt), a, b)
+		return app(SInt, e.acmpFun(), a, b)
 	}
 	f := sym("lexcmp")
 	if !e.declSeen[f] {
@@ -63,6 +63,43 @@ func (e *fnEnc) strCompare(a, b Term) Term {
 		e.assume("lexcmp: bytewise lexicographic comparison is axiomatised (range, zero iff equal, antisymmetry)")
 	}
 	return app(SInt, "lexcmp", a, b)
+}
+
+// acmpFun declares the abstract string order with its total-order axioms.
+func (e *fnEnc) acmpFun() string {
+	if !e.declSeen[sym("acmp")] {
+		e.declareFun("acmp", []Sort{SAStr, SAStr}, SInt)
+		e.decls = append(e.decls,
+			"(assert (forall ((a AStr) (b AStr)) (! (and (<= (- 1) (acmp a b)) (<= (acmp a b) 1) (= (= (acmp a b) 0) (= a b)) (= (acmp a b) (- (acmp b a)))) :pattern ((acmp a b)))))",
+			"(assert (forall ((a AStr) (b AStr) (c AStr)) (! (=> (and (<= (acmp a b) 0) (<= (acmp b c) 0)) (and (<= (acmp a c) 0) (=> (or (< (acmp a b) 0) (< (acmp b c) 0)) (< (acmp a c) 0)))) :pattern ((acmp a b) (acmp b c)))))")
+		e.assume("bytewise lexicographic comparison of strings/bytes is an (axiomatised) total order: range {-1,0,1}, zero iff equal, antisymmetric, transitive")
+	}
+	return "acmp"
+}
+
+// astrLit: abstract string literal; distinct literals are distinct values.
+func (e *fnEnc) astrLit(v string) Term {
+	key := "astr:" + v
+	if t, ok := e.strLits[key]; ok {
+		return t
+	}
+	t := e.declare(fmt.Sprintf("astr.%d", len(e.strLits)), SAStr)
+	e.assertGlobal(eq(strLen(t), intLit(int64(len(v)))))
+	for k, o := range e.strLits {
+		if strings.HasPrefix(k, "astr:") {
+			e.assertGlobal(not(eq(t, o)))
+		}
+	}
+	e.strLits[key] = t
+	return t
+}
+
+// abytes: abstract content of a byte slice.
+func (e *fnEnc) abytes(st *state, sl Term) Term {
+	f := e.declareFun("abytes", []Sort{ArrayOf(SInt, SInt), SInt, SInt}, SAStr)
+	comp, cs := e.elemComp(SInt)
+	arr := sel(e.heapGet(st, comp, cs), slBase(sl), ArrayOf(SInt, SInt))
+	return app(SAStr, f, arr, slOff(sl), slLen(sl))
 }
 
 func (e *fnEnc) strConcat(a, b Term) Term {
@@ -355,7 +392,7 @@ func (e *fnEnc) havocObject(st *state, v SVal) {
 	rec = func(si *structInfo, r Term) {
 		for i, f := range si.fields {
 			if f.embStruct {
-				rec(e.structOf(f.typ), app(SInt, e.embFun(si, i), r))
+				rec(e.structOf(f.typ), e.embApp(si, i, r))
 				continue
 			}
 			comp, s := e.fieldComp(si, i)
@@ -386,7 +423,7 @@ func (e *fnEnc) havocLocation(st *state, ex Expr, env *specEnv) {
 	}
 	f := si.fields[i]
 	if f.embStruct {
-		e.havocObject(st, SVal{t: app(SInt, e.embFun(si, i), base.t), typ: types.NewPointer(f.typ)})
+		e.havocObject(st, SVal{t: e.embApp(si, i, base.t), typ: types.NewPointer(f.typ)})
 		return
 	}
 	comp, s := e.fieldComp(si, i)
@@ -668,24 +705,6 @@ func (e *fnEnc) ret(c *blockCtx, in *ssa.Return) {
 	for _, r := range in.Results {
 		res = append(res, e.val(r))
 	}
-	env := e.entryEnv(c.st)
-	sig := e.fn.Signature
-	rn := resultNames(sig)
-	for i, r := range res {
-		rt := sig.Results().At(i).Type()
-		env.vars[rn[i]] = SVal{t: r, typ: rt}
-		env.vars[fmt.Sprintf("result%d", i)] = SVal{t: r, typ: rt}
-		if len(res) == 1 {
-			env.vars["result"] = SVal{t: r, typ: rt}
-		}
-	}
-	env.block = c.b
-	env.idx = e.curIdx
-	var goals []Term
-	for _, cl := range e.ctr.Get("ensures") {
-		goals = append(goals, e.evalBool(cl.E, env))
-	}
-	e.retGoals = append(e.retGoals, goals)
 	e.retSt = append(e.retSt, &retPoint{block: c.b, results: res, st: c.st, reach: c.reach})
 	c.dead = true
 }
